@@ -282,6 +282,8 @@ def gen_op(rng, prop, world, idx, mask, nres_ops):
     n = wchoice(rng, [(1, 12), (2, 15), (3, 18), (4, 12), (6, 15), (9, 12), (14, 8), (25, 6), (0, 2)])
     if world["mode"] == "stub" and rng.random() < 0.04:
         n = rng.choice([60, 120, 250])  # long runs where they are cheap
+    elif world.get("depth") and rng.random() < 0.06:
+        n = rng.choice([40, 80])
     op["horizon"] = n
     sk = wchoice(rng, [("default", 35), ("tottime", 25), ("maxit", 20), ("both", 15), ("degenerate", 5)])
     stop = None
@@ -309,7 +311,7 @@ def gen_op(rng, prop, world, idx, mask, nres_ops):
         op["mon"] = gen_monspec(rng, mkind, 2)
         op["mon_id"] = rng.randrange(0, 3) if rng.random() < 0.4 else 100 + idx
     op["dir"] = {"dtlocal": True} if ("dtlocal" in mask and rng.random() < 0.25) else {}
-    if world["mode"] == "stub" and cls in EXPLICIT and rng.random() < 0.002:
+    if world["mode"] == "stub" and cls in EXPLICIT and rng.random() < (0.002 if not world.get("depth") else 0.004):
         # marathon: one call of more than ten thousand iterations (cheap in the stub world),
         # against silent iteration caps and counters that only go wrong far from zero
         n = 10200 + rng.randrange(2500)
@@ -431,9 +433,14 @@ def apply_template(rng, prop, world, mask, ops):
     return name, out
 
 
-def generate(seed, prop, run):
-    rng = rng_for(seed, prop, run)
+DEPTH = {"quick": 0, "thorough": 1}
+
+
+def generate(seed, prop, run, depth=0):
+    """depth 1 (thorough tier): longer histories, longer calls, more marathons."""
+    rng = rng_for(seed, prop, run, depth) if depth else rng_for(seed, prop, run)
     world = gen_world(rng, prop)
+    world["depth"] = depth
     world["cfl"] = fhex(gen_cfl(rng, world, world["solvers"][0]["cls"]))
     # swarm mask
     mask = set()
@@ -446,9 +453,10 @@ def generate(seed, prop, run):
         if rng.random() < p:
             mask.add(k)
     if prop == "C07":
-        nops = wchoice(rng, [(1, 50), (2, 30), (3, 20)])
+        nops = wchoice(rng, [(1, 50), (2, 30), (3, 20)] if not depth else [(1, 35), (2, 30), (3, 20), (4, 10), (6, 5)])
     else:
-        nops = wchoice(rng, [(1, 12), (2, 35), (3, 25), (4, 14), (5, 8), (6, 6)])
+        nops = wchoice(rng, [(1, 12), (2, 35), (3, 25), (4, 14), (5, 8), (6, 6)] if not depth else
+                       [(1, 8), (2, 25), (3, 22), (4, 15), (5, 10), (6, 8), (8, 7), (10, 5)])
     ops = []
     res_ops = []
     for i in range(nops):
